@@ -267,7 +267,15 @@ func (c *ctx) doArch(seedName string, perOp int) {
 		}
 		if c.spec.WordDelta < 0 {
 			// WordSize smaller than the widest opcode: an opcode that does not fit must be rejected
-			if op.Op_get_instruction_len(&m.Arch) > m.Max_word() && usable {
+			// (the width an instruction needs is counted from /verif's own field table: some opcodes'
+			// Op_get_instruction_len overstates what their assembler emits, e.g. m2rri counts a ROM address
+			// it does not encode, and an instruction that does fit the overridden word is an ordinary line)
+			need := m.Opcodes_bits()
+			for _, f := range sig {
+				b, _ := gen.FieldWidth(&m.Arch, name, f)
+				need += b
+			}
+			if need > m.Max_word() && usable {
 				vals := make([]uint64, len(sig))
 				texts := make([]string, len(sig))
 				for i, f := range sig {
